@@ -1,2 +1,2 @@
 (* everything the extracted driver needs from Checkers/ *)
-From TW Require Export ParseWF GreedyB.
+From TW Require Export ParseWF GreedyB OptB.
